@@ -395,4 +395,9 @@ def run(tier):
             continue
         rep.check(not wrong, "literal-block-charset", short(k), "a string containing %s may be written raw into a literal block scalar, where the scanner reads it as "
                   "a line break (or the end of input): the text does not load back" % ", ".join(wrong), site=F.fns[k].span)
+    # the rest of the literal-block path: which strings take it, how their lines are indented, and never for simple keys
+    from . import literalblock
+    rep.floor("strings folded through the literal-block predicate", literalblock.representable(rep, F), 400)
+    rep.floor("line-feed-to-text segments of the literal-block loop", literalblock.indented(rep, F), 5)
+    rep.floor("calls of emit_literal_block", literalblock.not_for_keys(rep, F), 1)
     return rep
